@@ -845,6 +845,14 @@ def minimise(desc: Dict[str, Any], W: int, clause: str, budget: int = 600, deadl
 # --------------------------------------------------------------------------------------------------------
 # entry point
 
+def _min_job(args):
+    clause, desc, W, b = args
+    d2, W2, b2 = minimise(desc, W, clause, budget=400)
+    if b2 is None:
+        d2, W2, b2 = desc, W, b
+    return clause, d2, W2, b2
+
+
 TIERS = {
     # tables in the main pool, tables in the leading>=2 pool
     "quick": (1620, 54),
@@ -886,18 +894,18 @@ def run(tier: str, seed: int) -> dict:
         for k, v in p["fails"].items():
             cands.setdefault(k, []).extend(v)
     failures = []
-    for clause in sorted(cands):
-        lst = _pick(cands[clause])
-        seen_keys = set()
-        for _size_, desc, W, b in lst:
-            d2, W2, b2 = minimise(desc, W, clause, deadline=t0 + (22 if tier == "quick" else 540))
-            if b2 is None:
-                d2, W2, b2 = desc, W, b
+    todo = [(clause, desc, W, b) for clause in sorted(cands) for _size_, desc, W, b in _pick(cands[clause])]
+    with ctx.Pool(min(procs, max(1, len(todo)))) as pool:      # minimisation is bounded by evaluations, not by time
+        done = pool.map(_min_job, todo, chunksize=1)
+    seen_keys = set()
+    for clause, d2, W2, b2 in done:
+        if True:
             an = analyse(d2)
-            key = _key(d2, W2)
+            key = clause + _key(d2, W2)
             if key in seen_keys:
                 continue
             seen_keys.add(key)
+            key = _key(d2, W2)
             failures.append({
                 "check": clause,
                 "what": b2["what"],
